@@ -209,3 +209,16 @@ for _pid, _add in ROUND910.items():
     if _pid in CHECKS:
         _t, _text, _note, _ref = CHECKS[_pid]
         CHECKS[_pid] = (_t, _text + " " + _add, _note, _ref)
+
+
+# ---- additions of round 11 ----
+ROUND11 = {
+    "C02": "In a third of the ledger cases the caller has edited the exported result tables (charging_rates_as_df / pilot_signals_as_df) in place before the books are read.",
+    "C04": "In a quarter of the cases the exported result tables have been edited in place before the pilot matrix is compared.",
+    "C07": "Sub-check single_call: single scheduling calls through an interface whose finite level lists omit the implied 0 A, with caller-narrowed session bounds and a breaker smaller than the lowest level, judged by the safety clauses only.",
+    "C17": "The interface sub-check also runs at 0.5-, 2.5- and 7.5-minute periods.",
+}
+for _pid, _add in ROUND11.items():
+    if _pid in CHECKS:
+        _t, _text, _note, _ref = CHECKS[_pid]
+        CHECKS[_pid] = (_t, _text + " " + _add, _note, _ref)
